@@ -1,10 +1,418 @@
-(* C08 correspondence entry point: dispatch on the case tag.
-   (1 ...) errors-package nesting          -> Model/ErrorsPkg.v
+(* C08: the I/O paths of rtmp and flv over the transport model of Lib/IO.v.
+
+   FLV     the demuxer / muxer methods (flv/flv.go 89-134, 162-218) over a faulty transport; the
+           byte-level parsers and writers are the flv builder's (Model/Flv.v: parse_header,
+           parse_tag_header, strip_pts, mux_header, mux_tag_header, mux_tag_trailer), only the
+           transport under them is replaced by Lib/IO.v's.
+   RTMP    the read path as the sequence of io.ReadFull / binary.Read / io.CopyN calls it makes on
+           a well-formed chunk stream (a "read plan": handshake 3 x CopyN on the raw transport,
+           then per chunk: basic header 1+1+1 bytes, message header 11/7/3/0, extended timestamp
+           4, payload min(chunk size, rest), all through bufio.Reader), grouped into items; the
+           write path as the bufio.Writer writes and the Flush of WriteMessage.
+           The data-dependent chunk reader itself is Model/RtmpChunk.v (rtmpchunk builder).
+   (1 ...) errors-package nestings -> Model/ErrorsPkg.v.
    Definitions only. *)
-From Verif Require Import Lib.Base Lib.Sx Lib.Err Model.ErrorsPkg.
+From Verif Require Import Lib.Base Lib.Sx Lib.Err Lib.IO Model.ErrorsPkg.
+From Verif Require Model.Flv.
+From Verif Require Import Gen.Gen_rtmp.
+
+Definition frev {A} (l : list A) : list A := rev_append l [].
+
+(* ============================== generic: read plans ============================== *)
+Inductive rop : Type :=
+| RF (n : N)      (* io.ReadFull / binary.Read of n bytes *)
+| CN (n : N).     (* io.CopyN of n bytes into a bytes.Buffer *)
+
+Definition rop_size (o : rop) : N := match o with RF n => n | CN n => n end.
+Definition copy_ask : N := 512%N.      (* bytes.MinRead: first spare capacity of a bytes.Buffer *)
+
+(* what the FLV read operations return *)
+Inductive flv_item : Type :=
+| IHeader (ver : N) (hv ha : bool)
+| ITagHeader (ty sz ts : N)
+| ITagBody (b : bytes).
+
+Section Plans.
+  Variable S : Type.
+  Variable rd : N -> S -> bytes * option N * S.
+
+  Definition run_rop (o : rop) (st : S) : res (bytes * S) :=
+    match o with
+    | RF n => read_full S rd n st
+    | CN n => copy_n S rd copy_ask n st
+    end.
+
+  (* one item: all its reads, in order; the bytes read are returned in order *)
+  Fixpoint run_item (ops : list rop) (st : S) (acc : list bytes) : res (list bytes * S) :=
+    match ops with
+    | [] => Ok (frev acc, st)
+    | o :: t => match run_rop o st with
+                | Ok (b, st') => run_item t st' (b :: acc)
+                | Err e => Err e
+                | Panic p => Panic p
+                end
+    end.
+
+  (* items until the first error: (items completed, their bytes; error; state) *)
+  Fixpoint run_items (items : list (list rop)) (st : S) (done : list (list bytes))
+    : list (list bytes) * option N * S :=
+    match items with
+    | [] => (frev done, None, st)
+    | it :: t => match run_item it st [] with
+                 | Ok (bs, st') => run_items t st' (bs :: done)
+                 | Err e => (frev done, Some e, st)
+                 | Panic p => (frev done, Some (2000 + p)%N, st)
+                 end
+    end.
+
+  (* ============================== FLV demuxer ============================== *)
+  (* every method: h := &bytes.Buffer{}; io.CopyN(h, v.r, n); parse h.Bytes().
+     Errors of the parser (bad signature) are not transport errors: 100 + code. *)
+  Definition flv_via {A} (n : N) (parse : bytes -> res A) (st : S) : res (A * S) :=
+    match copy_n S rd copy_ask n st with
+    | Ok (p, st') => match parse p with
+                     | Ok v => Ok (v, st')
+                     | Err e => Err (100 + e)%N
+                     | Panic s => Panic s
+                     end
+    | Err e => Err e
+    | Panic s => Panic s
+    end.
+
+  Definition flv_read_header := flv_via 13 Flv.parse_header.
+  Definition flv_read_tag_header := flv_via 11 Flv.parse_tag_header.
+  Definition flv_read_tag (n : N) := flv_via (u32 (n + 4)) Flv.strip_pts.
+
+  (* the session of the package example: ReadTagHeader, ReadTag(size), ... until an error *)
+  Fixpoint flv_read_tags (fuel : nat) (st : S) (acc : list flv_item) : list flv_item * N :=
+    match fuel with
+    | O => (frev acc, id_NoProgress)
+    | Datatypes.S f =>
+        match flv_read_tag_header st with
+        | Err e => (frev acc, e)
+        | Panic p => (frev acc, 2000 + p)%N
+        | Ok ((ty, sz, ts), s1) =>
+            match flv_read_tag sz s1 with
+            | Err e => (frev (ITagHeader ty sz ts :: acc), e)
+            | Panic p => (frev (ITagHeader ty sz ts :: acc), 2000 + p)%N
+            | Ok (b, s2) => flv_read_tags f s2 (ITagBody b :: ITagHeader ty sz ts :: acc)
+            end
+        end
+    end.
+
+  Definition flv_read_session (fuel : nat) (st : S) : list flv_item * N :=
+    match flv_read_header st with
+    | Err e => ([], e)
+    | Panic p => ([], 2000 + p)%N
+    | Ok ((ver, hv, ha), s1) => flv_read_tags fuel s1 [IHeader ver hv ha]
+    end.
+End Plans.
+
+
+(* ============================== FLV muxer ============================== *)
+(* WriteHeader: one io.Copy; WriteTag: io.Copy of the 11-byte header, of the body (no Write
+   call when empty), of the 4-byte previous-tag-size; the first error is returned as is *)
+Definition flv_write_header (hv ha : bool) (w : wtr) : option N * wtr :=
+  copy_bytes (Flv.mux_header hv ha) w.
+
+Definition flv_write_tag (t : Flv.tag) (w : wtr) : option N * wtr :=
+  match copy_bytes (Flv.mux_tag_header t) w with
+  | (Some e, w1) => (Some e, w1)
+  | (None, w1) =>
+      match copy_bytes (Flv.t_body t) w1 with
+      | (Some e, w2) => (Some e, w2)
+      | (None, w2) => copy_bytes (Flv.mux_tag_trailer t) w2
+      end
+  end.
+
+(* operations until the first error: (operations completed, error, transport) *)
+Fixpoint flv_write_tags (tags : list Flv.tag) (w : wtr) (n : N) : N * option N * wtr :=
+  match tags with
+  | [] => (n, None, w)
+  | t :: r => match flv_write_tag t w with
+              | (Some e, w') => (n, Some e, w')
+              | (None, w') => flv_write_tags r w' (N.succ n)
+              end
+  end.
+
+Definition flv_write_session (hv ha : bool) (tags : list Flv.tag) (w : wtr) : N * option N * wtr :=
+  match flv_write_header hv ha w with
+  | (Some e, w') => (0%N, Some e, w')
+  | (None, w') => flv_write_tags tags w' 1%N
+  end.
+
+(* ============================== RTMP read plan ============================== *)
+(* what the harness case says about one message; [rm_set] = the chunk size a Set Chunk Size
+   message announces (0: not such a message) *)
+Record rmsg : Type := mk_rmsg { rm_fmt : N; rm_cid : N; rm_type : N; rm_ts : N; rm_len : N; rm_set : N }.
+
+Definition EXT : N := Z.to_N rtmp_extendedTimestamp.
+Definition DEFCHUNK : N := Z.to_N rtmp_defaultChunkSize.
+Definition hdr_size (fmt : N) : N := Z.to_N (nth (N.to_nat fmt) rtmp_messageHeaderSizes 0%Z).
+
+(* readBasicHeader: one byte, a second one for the 2-byte form (cid 64..319), a third one
+   for the 3-byte form -- each a binary.Read of a uint8 *)
+Definition bh_len (cid : N) : N := if (cid <=? 63)%N then 1 else if (cid <=? 319)%N then 2 else 3.
+Definition bh_reads (cid : N) : list rop := repeat (RF 1) (N.to_nat (bh_len cid)).
+Definition ext_reads (ext : bool) : list rop := if ext then [RF 4] else [].
+
+(* the chunks after the first: basic header (type 3: no message header), extended timestamp
+   again when the chunk stream has one, payload *)
+Fixpoint cont_reads (fuel : nat) (cid : N) (ext : bool) (cs rem : N) : list rop :=
+  match fuel with
+  | O => []
+  | Datatypes.S f =>
+      if (rem =? 0)%N then []
+      else let n := N.min cs rem in
+           bh_reads cid ++ RF 0 :: ext_reads ext ++ RF n :: cont_reads f cid ext cs (rem - n)%N
+  end.
+
+Definition msg_reads (cs : N) (m : rmsg) : list rop :=
+  let ext := (EXT <=? rm_ts m)%N in
+  bh_reads (rm_cid m) ++ RF (hdr_size (rm_fmt m)) :: ext_reads ext ++
+  (if (rm_len m =? 0)%N then []
+   else let n := N.min cs (rm_len m) in
+        RF n :: cont_reads (Datatypes.S (N.to_nat (rm_len m / cs))) (rm_cid m) ext cs (rm_len m - n)%N).
+
+Definition next_chunk_size (cs : N) (m : rmsg) : N := if (rm_set m =? 0)%N then cs else rm_set m.
+
+Fixpoint msgs_plan (cs : N) (ms : list rmsg) : list (list rop) :=
+  match ms with
+  | [] => []
+  | m :: t => msg_reads cs m :: msgs_plan (next_chunk_size cs m) t
+  end.
+
+Definition hs_plan : list (list rop) := [[CN 1]; [CN 1536]; [CN 1536]].
+
+(* handshake on the raw transport, then NewProtocol (bufio.Reader) and ReadMessage until the
+   first error; one more ReadMessage follows the last message (its first read fails) *)
+Definition rtmp_read_session (hs : bool) (ms : list rmsg) (s : stream) : N * N :=
+  let '(d1, e1, s1) := if hs then run_items stream tr_read hs_plan s [] else ([], None, s) in
+  match e1 with
+  | Some e => (N.of_nat (length d1), e)
+  | None =>
+      let '(d2, e2, _) := run_items (bufr stream) (br_read stream tr_read)
+                            (msgs_plan DEFCHUNK ms ++ [[RF 1]]) (bufr_new s1) [] in
+      (N.of_nat (length d1 + length d2), match e2 with Some e => e | None => 1000%N end)
+  end.
+
+(* ============================== RTMP write plan ============================== *)
+(* WriteMessage: for each chunk io.Copy(v.w, header) and io.Copy(v.w, payload part) into the
+   bufio.Writer, then Flush; the first error ends the operation *)
+Fixpoint bw_copies (sizes : list N) (b : bufw) : option N * bufw :=
+  match sizes with
+  | [] => (None, b)
+  | n :: t => match bw_copy_bytes (repeat 0%N (N.to_nat n)) b with
+              | (Some e, b') => (Some e, b')
+              | (None, b') => bw_copies t b'
+              end
+  end.
+
+Definition rtmp_write_message (sizes : list N) (b : bufw) : option N * bufw :=
+  match bw_copies sizes b with
+  | (Some e, b') => (Some e, b')
+  | (None, b') => bw_flush b'
+  end.
+
+Fixpoint chunk_sizes (fuel : nat) (h0 h3 cs rem : N) (first : bool) : list N :=
+  match fuel with
+  | O => []
+  | Datatypes.S f =>
+      if (rem =? 0)%N then []
+      else let n := N.min cs rem in
+           (if first then h0 else h3) :: n :: chunk_sizes f h0 h3 cs (rem - n)%N false
+  end.
+
+Definition msg_write_sizes (cs : N) (m : rmsg) : list N :=
+  let e := if (EXT <=? rm_ts m)%N then 4%N else 0%N in
+  chunk_sizes (Datatypes.S (N.to_nat (rm_len m / cs))) (bh_len (rm_cid m) + 11 + e)%N
+              (bh_len (rm_cid m) + e)%N cs (rm_len m) true.
+
+Fixpoint rtmp_write_msgs (cs : N) (ms : list rmsg) (b : bufw) (n : N) : N * option N * bufw :=
+  match ms with
+  | [] => (n, None, b)
+  | m :: t => match rtmp_write_message (msg_write_sizes cs m) b with
+              | (Some e, b') => (n, Some e, b')
+              | (None, b') => rtmp_write_msgs (next_chunk_size cs m) t b' (N.succ n)
+              end
+  end.
+
+(* handshake: three io.Copy on the raw transport *)
+Fixpoint raw_copies (sizes : list N) (w : wtr) (n : N) : N * option N * wtr :=
+  match sizes with
+  | [] => (n, None, w)
+  | k :: t => match copy_bytes (repeat 0%N (N.to_nat k)) w with
+              | (Some e, w') => (n, Some e, w')
+              | (None, w') => raw_copies t w' (N.succ n)
+              end
+  end.
+
+Definition rtmp_write_session (hs : bool) (ms : list rmsg) (w : wtr) : N * option N * wtr :=
+  let '(n1, e1, w1) := if hs then raw_copies [1; 1536; 1536]%N w 0%N else (0%N, None, w) in
+  match e1 with
+  | Some e => (n1, Some e, w1)
+  | None => let '(n2, e2, b) := rtmp_write_msgs DEFCHUNK ms (bufw_new w1) n1 in
+            (n2, e2, bw_under b)
+  end.
+
+(* ============================== harness interface ============================== *)
+Definition sxN (s : sx) : option N := match s with SZ z => Some (Z.to_N z) | _ => None end.
+Fixpoint sxNs (l : list sx) : option (list N) :=
+  match l with
+  | [] => Some []
+  | SZ z :: t => match sxNs t with Some r => Some (Z.to_N z :: r) | None => None end
+  | _ => None
+  end.
+
+(* body = x<hex> | (len seed): byte j = (seed + 31 j) mod 256 *)
+Fixpoint fill (n : nat) (v : N) : bytes :=
+  match n with O => [] | Datatypes.S k => (v mod 256)%N :: fill k (v + 31)%N end.
+Definition sx_body (s : sx) : option bytes :=
+  match s with
+  | SB b => Some b
+  | SL [SZ l; SZ seed] => Some (fill (Z.to_nat l) (Z.to_N seed))
+  | _ => None
+  end.
+Definition sx_body_len (s : sx) : option N :=
+  match s with
+  | SB b => Some (lenN b)
+  | SL [SZ l; SZ _] => Some (Z.to_N l)
+  | _ => None
+  end.
+
+(* offsets / call indices:  (0 lo hi) | (1 k ...) *)
+Fixpoint n_range (lo : N) (count : nat) : list N :=
+  match count with O => [] | Datatypes.S c => lo :: n_range (N.succ lo) c end.
+Definition sx_ks (s : sx) : option (list N) :=
+  match s with
+  | SL [SZ 0%Z; SZ lo; SZ hi] =>
+      Some (n_range (Z.to_N lo) (Datatypes.S (Z.to_nat hi) - Z.to_nat lo))
+  | SL (SZ 1%Z :: l) => sxNs l
+  | _ => None
+  end.
+
+(* cut [b] into Data segments whose sizes cycle through [sizes] (0 = the rest); the last one
+   carries the terminal error when [together] *)
+Definition next_size (pend all : list N) : N * list N :=
+  match pend with
+  | k :: r => (k, r)
+  | [] => match all with k :: r => (k, r) | [] => (0%N, []) end
+  end.
+Fixpoint seg_go (fuel : nat) (b : bytes) (pend all : list N) (acc : list bytes) : list bytes :=
+  match fuel with
+  | O => frev (b :: acc)
+  | Datatypes.S f =>
+      match b with
+      | [] => frev acc
+      | _ => let (k, pend') := next_size pend all in
+             if (k =? 0)%N then frev (b :: acc)
+             else let (a, r) := split_at k b in seg_go f r pend' all (a :: acc)
+      end
+  end.
+Fixpoint seal (l : list bytes) (term : N) (together : bool) : stream :=
+  match l with
+  | [] => if together then [Last [] term] else [Fault term]
+  | [x] => if together then [Last x term] else [Data x; Fault term]
+  | x :: t => Data x :: seal t term together
+  end.
+Definition mk_stream (data : bytes) (sizes : list N) (term : N) (together : bool) : stream :=
+  seal (seg_go (Datatypes.S (length data)) data sizes sizes []) term together.
+
+(* cause id as the harness prints it: a sentinel id, or -2 for anything else *)
+Definition obs_cause (e : N) : sx := if (e <=? 4)%N then sN e else SZ (-2)%Z.
+Definition obs_ocause (e : option N) : sx := match e with None => SZ (-1)%Z | Some x => obs_cause x end.
+
+Definition zbool (z : Z) : bool := negb (z =? 0)%Z.
+Definition first_n (k : N) (b : bytes) : bytes := fst (split_at k b).
+
+(* ---- FLV ---- *)
+Definition sx_flv_tag (x : sx) : option Flv.tag :=
+  match x with
+  | SL [SZ ty; SZ ts; body] =>
+      match sx_body body with Some b => Some (Flv.mk_tag (Z.to_N ty) (Z.to_N ts) b) | None => None end
+  | _ => None
+  end.
+Fixpoint sx_flv_tags (l : list sx) : option (list Flv.tag) :=
+  match l with
+  | [] => Some []
+  | x :: t => match sx_flv_tag x, sx_flv_tags t with Some a, Some r => Some (a :: r) | _, _ => None end
+  end.
+
+Definition run_flv_read (hv ha : bool) (tags : list Flv.tag) (term : N) (together : bool)
+                        (sizes ks : list N) : sx :=
+  let wire := Flv.mux hv ha tags in
+  let fuel := Datatypes.S (length tags) in
+  s_ok (map (fun k =>
+               let '(items, e) := flv_read_session stream tr_read fuel
+                                    (mk_stream (first_n k wire) sizes term together) in
+               SL [snat (length items); obs_cause e]) ks).
+
+Definition run_flv_write (hv ha : bool) (tags : list Flv.tag) (term m : N) (is : list N) : sx :=
+  s_ok (map (fun i =>
+               let '(n, e, w) := flv_write_session hv ha tags
+                                   (wtr_new (Some i) m (if (term =? 0)%N then None else Some term)) in
+               SL [sN n; obs_ocause e; sN (lenN (wt_received w))]) is).
+
+(* ---- RTMP ---- *)
+Definition sx_rmsg (x : sx) : option rmsg :=
+  match x with
+  | SL [SZ f; SZ cid; SZ ty; SZ ts; SZ _; body] =>
+      match sx_body_len body with
+      | Some l =>
+          let set :=
+            if (ty =? rtmp_MessageTypeSetChunkSize)%Z && (4 <=? l)%N then
+              match sx_body body with
+              | Some (a :: b :: c :: d :: _) => ube4 a b c d
+              | _ => 0%N
+              end
+            else 0%N in
+          Some (mk_rmsg (Z.to_N f) (Z.to_N cid) (Z.to_N ty) (Z.to_N ts) l set)
+      | None => None
+      end
+  | _ => None
+  end.
+Fixpoint sx_rmsgs (l : list sx) : option (list rmsg) :=
+  match l with
+  | [] => Some []
+  | x :: t => match sx_rmsg x, sx_rmsgs t with Some a, Some r => Some (a :: r) | _, _ => None end
+  end.
+
+(* the content of the wire is irrelevant to a read plan: k zero bytes *)
+Definition run_rtmp_read (hs : bool) (ms : list rmsg) (term : N) (together : bool)
+                         (sizes ks : list N) : sx :=
+  s_ok (map (fun k =>
+               let '(n, e) := rtmp_read_session hs ms
+                                (mk_stream (repeat 0%N (N.to_nat k)) sizes term together) in
+               SL [sN n; obs_cause e]) ks).
+
+Definition run_rtmp_write (hs : bool) (ms : list rmsg) (term m : N) (is : list N) : sx :=
+  s_ok (map (fun i =>
+               let '(n, e, w) := rtmp_write_session hs ms
+                                   (wtr_new (Some i) m (if (term =? 0)%N then None else Some term)) in
+               SL [sN n; obs_ocause e; sN (lenN (wt_received w))]) is).
 
 Definition run_c08 (c : sx) : sx :=
   match c with
   | SL (SZ 1%Z :: args) => run_errors args
+  | SL [SZ 2%Z; SZ 0%Z; SZ hv; SZ ha; SL tags; SZ term; SZ tog; SL segs; ks] =>
+      match sx_flv_tags tags, sxNs segs, sx_ks ks with
+      | Some tg, Some sz, Some kl => run_flv_read (zbool hv) (zbool ha) tg (Z.to_N term) (zbool tog) sz kl
+      | _, _, _ => bad_case
+      end
+  | SL [SZ 2%Z; SZ 1%Z; SZ hv; SZ ha; SL tags; SZ term; SZ m; is] =>
+      match sx_flv_tags tags, sx_ks is with
+      | Some tg, Some il => run_flv_write (zbool hv) (zbool ha) tg (Z.to_N term) (Z.to_N m) il
+      | _, _ => bad_case
+      end
+  | SL [SZ 3%Z; SZ 0%Z; SZ hs; SL msgs; SZ term; SZ tog; SL segs; ks] =>
+      match sx_rmsgs msgs, sxNs segs, sx_ks ks with
+      | Some ms, Some sz, Some kl => run_rtmp_read (zbool hs) ms (Z.to_N term) (zbool tog) sz kl
+      | _, _, _ => bad_case
+      end
+  | SL [SZ 3%Z; SZ 1%Z; SZ hs; SL msgs; SZ term; SZ m; is] =>
+      match sx_rmsgs msgs, sx_ks is with
+      | Some ms, Some il => run_rtmp_write (zbool hs) ms (Z.to_N term) (Z.to_N m) il
+      | _, _ => bad_case
+      end
   | _ => bad_case
   end.
